@@ -29,7 +29,7 @@ import itertools
 import numbers
 import os
 from dataclasses import dataclass
-from typing import List, Optional
+from typing import ForwardRef, List, Literal, Optional, Union
 
 from vkit import env, runner
 from vkit.errors import describe, exc_site
@@ -38,7 +38,18 @@ env.import_adaptix()
 
 from hypothesis import strategies as st  # noqa: E402
 
-from adaptix import CannotProvide, Chain, DebugTrail, P, Provider, Retort, bound, dumper, loader  # noqa: E402
+from adaptix import (  # noqa: E402
+    CannotProvide,
+    Chain,
+    DebugTrail,
+    P,
+    Provider,
+    ProviderNotFoundError,
+    Retort,
+    bound,
+    dumper,
+    loader,
+)
 from adaptix.load_error import AggregateLoadError, LoadError  # noqa: E402
 
 PROP = "C09"
@@ -56,10 +67,18 @@ class M:
 
 # ----------------------------------------------------------------------------------- location stacks (pure data)
 # a location is (kind, type name, extra): ("T", "int", None) | ("F", "int", "a") | ("G", "int", 0)
-REQ_TYPES = {"int": int, "M": M, "List[int]": List[int], "Optional[int]": Optional[int]}
+_FR = ForwardRef("Missing")
+# types that ``normalize_type`` refuses (ValueError): they have no origin, no exact-class predicate may match them,
+# no builtin provider serves them.  Generic aliases over them are unnormalisable as a whole (arguments are
+# normalised eagerly), so they only occur as top-level requests.
+UNNORMALISABLE = {"FR": _FR, "List[FR]": List[_FR], "bare Literal": Literal, "bare Union": Union, "object 5": 5,
+                  "list['Missing']": list["Missing"]}
+REQ_TYPES = {"int": int, "M": M, "List[int]": List[int], "Optional[int]": Optional[int], "None": None,
+             **UNNORMALISABLE}
 TYPE_NAME = {v: k for k, v in REQ_TYPES.items()}
-ORIGIN_OF_TYPE = {"int": "int", "M": "M", "List[int]": "list", "Optional[int]": "Union"}
-REQS = tuple(REQ_TYPES)
+ORIGIN_OF_TYPE = {"int": "int", "M": "M", "List[int]": "list", "Optional[int]": "Union", "None": "None",
+                  **{k: "<no origin>" for k in UNNORMALISABLE}}
+REQS = ("int", "M", "List[int]", "Optional[int]", "FR", "List[FR]")  # enumerated; the others: fixed + sampled
 
 
 def _lt(stack):
@@ -85,6 +104,7 @@ PREDS = {
     "int": (lambda: int, "int", lambda s: _lt(s) == "int"),
     "str": (lambda: str, "str", lambda s: False),
     "bool": (lambda: bool, "bool", lambda s: False),
+    "None": (lambda: None, "None", lambda s: _lt(s) == "None"),
     "M": (lambda: M, "M", lambda s: _lt(s) == "M"),
     "list": (lambda: list, "list", lambda s: _lt(s) == "List[int]"),
     "P[int]": (lambda: P[int], "int", lambda s: _lt(s) == "int"),
@@ -116,6 +136,9 @@ RELEVANT = {
     "List[int]": ("list", "List[int]", "Sequence", "P.ANY", "~P[M].a", "int", "P[int]", "P[List[int]][int]",
                   "~P[int]", "Integral"),
     "Optional[int]": ("Optional[int]", "P.ANY", "~P[M].a", "int", "P[int]", "Integral", "~P[int]", "P[int,str]"),
+    "None": ("None", "P.ANY", "~P[M].a", "~P[int]"),
+    # exact-class predicates never match these; None / str / int are listed so that None-keyed tables are built
+    **{k: ("None", "str", "int", "P.ANY", "~P[M].a", "~P[int]") for k in UNNORMALISABLE},
 }
 # the first builtin LoaderRequest / DumperRequest providers of FilledRetort are exact-origin ones (None, Any, object,
 # datetime, date, time, timedelta) followed by a non-exact one (flag_by_exact_value): a trailing run of exact
@@ -244,13 +267,27 @@ class RefLoadError(Exception):
         self.aggregate = aggregate  # True / False / None (not asserted)
 
 
+class RefNotFound(Exception):
+    """No provider can serve the request: the facade must raise ProviderNotFoundError."""
+
+
+class RefUnspecified(Exception):
+    """Outcome not fixed by the property statement / docs (a retort placed in a recipe cannot serve the request:
+    whether the outer recipe goes on behind it depends on the undocumented terminal / non-terminal flag)."""
+
+
 class Ref:
-    """Linear chain-of-responsibility.  ``defect=True`` routes through the transcription of the known defect."""
+    """Linear chain-of-responsibility.  ``defect=True`` routes through the transcription of the known defect.
+
+    A request nobody can serve: ``resolve`` raises RefNotFound.  A chaining / delegating entry whose rest of the
+    recipe fails counts as declining; scanning on from the same offset fails in the same way, so the outcome is
+    RefNotFound as well (only the consultation log is not exact on that path: ``self.failed``)."""
 
     def __init__(self, direction: str, defect: bool = False):
         self.direction = direction
         self.defect = defect
         self.log: list = []  # (stack, idx) in consultation order
+        self.failed: set = set()  # stacks whose resolution ran into "nothing can serve this"
 
     def _items(self, ctx: RCtx):
         if not self.defect:
@@ -282,12 +319,20 @@ class Ref:
             if k == "last":
                 return ("last", e.idx, self.resolve(ctx, stack, pos + 1))
             if k == "retort":
-                return self.resolve(e.inner, stack, 0)
+                try:
+                    return self.resolve(e.inner, stack, 0)
+                except RefNotFound:
+                    raise RefUnspecified from None
             raise env.HarnessError(k)
         return self.builtin(ctx, stack)
 
     def builtin(self, ctx: RCtx, stack):
         t = _lt(stack)
+        if t in UNNORMALISABLE:  # no origin, no builtin provider: nothing is left to serve it
+            self.failed.add(stack)
+            raise RefNotFound
+        if t == "None":
+            return ("b_none",)
         if t == "int":
             return ("b_int", ctx.strict)
         if t == "M":
@@ -307,6 +352,10 @@ class Ref:
         if tag == "last":
             return mark(node[1] + 1, self.run(node[2], x))
         load = self.direction == "load"
+        if tag == "b_none":
+            if x is not None:
+                raise env.HarnessError(f"reference None loader/dumper got {x!r}")
+            return None
         if tag == "b_int":
             if not load:
                 return x
@@ -355,7 +404,10 @@ def stale_combo_items(seq):
         else:
             combo[o] = e
     for o in BUILTIN_HEAD:
-        combo[o] = None
+        if o in combo:  # a user entry keyed None in the trailing run: the builtin None provider repeats the class
+            stop(None)
+        else:
+            combo[o] = None
     stop(None)
     return items
 
@@ -367,7 +419,9 @@ def grouping_features(seq):
     def close(trailing=False):
         nonlocal run, groups
         if run:
-            if trailing:
+            if any(exact_origin(x) == "None" for x in run.values()):
+                feats.add("grp:table_with_None_key" if len(run) >= 2 else "grp:lone_None_key")
+            if trailing and "None" not in run:
                 feats.add("grp:trailing_merged_with_builtin")
             elif len(run) == 1:
                 feats.add("grp:lone_exact")
@@ -728,7 +782,7 @@ def _max_compose(node):
         return 1
     if tag in ("first", "last"):
         return 1 + _max_compose(node[2])
-    if tag == "b_int":
+    if tag in ("b_int", "b_none"):
         return 0
     if tag == "b_M":
         return max(_max_compose(node[2]), _max_compose(node[3]))
